@@ -396,7 +396,7 @@ def wire_worker(args):
         kind = r.choice(["honest"] * 3 + ["other-secret"] + ["hostile"] * 4)
         variant, spw = "honest", cpw
         if kind == "other-secret":
-            spw = cpw + "x" if r.random() < 0.5 else cpw[:-1] or "y"
+            spw = cpw + "x" if r.random() < 0.5 or len(cpw) < 2 else cpw[:-1]
         elif kind == "hostile":
             variant = r.choice(HOSTILE)
         iters = r.choice([1, 2, 64, 500, 4096])
